@@ -1,8 +1,8 @@
 CONSTANTS
   Procs = {1, 2, 3}
-  Kinds = {"out", "int"}
+  Kinds = {"out"}
   LKinds = {"key"}
-  Cap <- MCCap
+  Cap <- MCCap1
   Mode = "enforce"
   Lazy = TRUE
   MaxOps = 3
